@@ -703,7 +703,7 @@ def c16(groups, tol=None):
     for (kind, cf, ce, flatv) in groups:
         name = cf.desc[0]
         n = cf.desc[1] if len(cf.desc) > 1 and isinstance(cf.desc[1], int) else 1
-        xs = [abs(o[2]) for o in cf.ops if o[0] in ("u", "q")]
+        xs = [abs(o[2]) for o in cf.ops if o[0] in ("u", "q", "v")]
         mag = max(xs) if xs else F(1)
         if name == "Cumulative":
             mag = mag * n
@@ -715,7 +715,7 @@ def c16(groups, tol=None):
             scale_ = mag          # value-like when the window is flat; otherwise x/std, judged relative to its own size below
         t = tol if tol is not None else (F(1, 10 ** 6) if kind == "long" or kind == "f32" else F(1, 10 ** 4))
         worst = None
-        pos = [i for i, o in enumerate(cf.ops) if o[0] in ("u", "l")]
+        pos = [i for i, o in enumerate(cf.ops) if o[0] in ("u", "l", "v")]
         if kind == "flat":
             pos = pos[-1:]
         for i in pos:
